@@ -21,7 +21,7 @@
 (*                 promoted-and-served out of the secondary tier after Close.                    *)
 EXTENDS Integers, Sequences, FiniteSets, TLC
 
-CONSTANTS Keys, MaxVal, MaxTime, TTLs, FixB, FixC, FixD, FixE
+CONSTANTS Keys, MaxVal, MaxTime, TTLs, FixB, FixC, FixD, FixE, Loading
 
 VARIABLES mem, sec, hq, wk, cur, now, nextV, nextId, bad, closed
 vars == <<mem, sec, hq, wk, cur, now, nextV, nextId, bad, closed>>
@@ -64,6 +64,29 @@ Get(k) ==
                /\ bad' = Check(k, sec[k].v)
                /\ UNCHANGED <<sec, hq, wk, cur, now, nextV>>
      ELSE UNCHANGED <<mem, sec, hq, wk, cur, now, nextV, nextId, bad>>
+  /\ UNCHANGED closed
+
+\* loading Get (LoadingStore.Get with a secondary cache): memory hit; else, under the shard lock, a
+\* secondary copy that is not past its deadline is promoted (flag set); an expired copy counts as
+\* absent (it is left where it is) and the loader runs: its value is what the key holds from now on
+LGet(k, ttl) ==
+  /\ ~closed
+  /\ IF Alive(mem[k])
+     THEN /\ bad' = Check(k, mem[k].v) /\ UNCHANGED <<mem, sec, hq, wk, cur, now, nextV, nextId>>
+     ELSE IF sec[k].has /\ ~(sec[k].dl # 0 /\ sec[k].dl <= now)
+     THEN /\ nextId <= MaxVal + 2
+          /\ mem' = [mem EXCEPT ![k] = [has |-> TRUE, v |-> sec[k].v, dl |-> sec[k].dl, nvm |-> TRUE, id |-> nextId]]
+          /\ nextId' = nextId + 1
+          /\ bad' = Check(k, sec[k].v)
+          /\ UNCHANGED <<sec, hq, wk, cur, now, nextV>>
+     ELSE /\ nextV <= MaxVal /\ nextId <= MaxVal + 2
+          /\ LET d == IF ttl > 0 THEN now + ttl ELSE 0 IN
+             \* a slot still held by an expired, not yet reclaimed entry is updated in place
+             /\ mem' = [mem EXCEPT ![k] = IF mem[k].has THEN [@ EXCEPT !.v = nextV, !.dl = IF ttl > 0 THEN d ELSE @, !.nvm = IF FixB THEN FALSE ELSE @]
+                                          ELSE [has |-> TRUE, v |-> nextV, dl |-> d, nvm |-> FALSE, id |-> nextId]]
+             /\ cur' = [cur EXCEPT ![k] = [has |-> TRUE, v |-> nextV, dl |-> IF mem[k].has /\ ttl = 0 THEN mem[k].dl ELSE d]]
+          /\ nextV' = nextV + 1 /\ nextId' = nextId + 1
+          /\ UNCHANGED <<sec, hq, wk, now, bad>>
   /\ UNCHANGED closed
 
 \* after Close: the memory tier is empty (shards reset); the repaired Get misses under the shard lock,
@@ -126,6 +149,7 @@ Close ==
 Advance == now < MaxTime /\ now' = now + 1 /\ UNCHANGED <<mem, sec, hq, wk, cur, nextV, nextId, bad, closed>>
 
 Next == \/ \E k \in Keys, t \in TTLs : Set(k, t)
+        \/ (Loading /\ \E k \in Keys, t \in TTLs : LGet(k, t))
         \/ \E k \in Keys : Get(k) \/ GetClosed(k) \/ Delete(k) \/ Evict(k) \/ Expire(k)
         \/ WCopy \/ WDrop \/ Advance \/ Close
 Spec == Init /\ [][Next]_vars
